@@ -55,21 +55,21 @@ impl Property for C03 {
             (Tier::Thorough, true) => 40,
         };
         // strata: identifier style x key source (dealer, dkg, dealer+refresh, dealer+repair)
-        (0..24).map(|s| (s, per)).collect()
+        (0..30).map(|s| (s, per)).collect()
     }
     fn chunk(&self, suite: SuiteId) -> u32 {
         if suite.slow() { 3 } else { 10 }
     }
     fn strategy(&self, suite: SuiteId, tier: Tier, stratum: u32) -> BoxedStrategy<Case> {
         let style = ID_STYLES[(stratum % 6) as usize];
-        let source = [KeySource::Dealer, KeySource::Dkg, KeySource::DealerRefreshed, KeySource::Repaired][(stratum / 6 % 4) as usize];
+        let source = [KeySource::Dealer, KeySource::Dkg, KeySource::DealerRefreshed, KeySource::Repaired, KeySource::History(0)][(stratum / 6 % 5) as usize];
         let nmax = match (tier, suite.slow(), source) {
-            (Tier::Quick, false, KeySource::Dkg) => 6,
-            (Tier::Quick, true, KeySource::Dkg) => 4,
+            (Tier::Quick, false, KeySource::Dkg | KeySource::History(_)) => 6,
+            (Tier::Quick, true, KeySource::Dkg | KeySource::History(_)) => 4,
             (Tier::Quick, false, _) => 9,
             (Tier::Quick, true, _) => 6,
-            (Tier::Thorough, false, KeySource::Dkg) => 8,
-            (Tier::Thorough, true, KeySource::Dkg) => 5,
+            (Tier::Thorough, false, KeySource::Dkg | KeySource::History(_)) => 8,
+            (Tier::Thorough, true, KeySource::Dkg | KeySource::History(_)) => 5,
             (Tier::Thorough, false, _) => 16,
             (Tier::Thorough, true, _) => 9,
         };
@@ -86,6 +86,7 @@ impl Property for C03 {
             ("src:dkg".into(), m),
             ("src:dealer+refresh".into(), m),
             ("src:dealer+repair".into(), m),
+            ("src:history".into(), m),
             ("lied:refused-by-aggregate".into(), m),
             ("honest:signer-refused".into(), m),
             ("honest:coordinator-refused".into(), m),
